@@ -1,14 +1,14 @@
 SPECIFICATION Spec
 CONSTANTS
-  Guids = {"g1"}
+  Guids = {"g1", "g2"}
   RuleIds = {"r1"}
-  Contents = {"c1", "c2"}
+  Contents = {"c1"}
   Versions = {"2.0"}
   ModeOf <- MCModeOf
-  RulesKey = "idmode"
-  IdsIdentifyContent = FALSE
+  RulesKey = "item"
+  IdsIdentifyContent = TRUE
   IncOf <- MCIncOf
-  KeepHigherIncarnation = FALSE
+  KeepHigherIncarnation = TRUE
   StateEarly = FALSE
   InitScenarios = {"fresh"}
   InitDocs <- DocsEmptyId
